@@ -77,11 +77,11 @@ let env_string (deq : z -> z -> n) (pxy : z) (pz : z) (pm : z) (ct : ctype) (pai
   | _ -> failwith "env_string: fewer than two dimensions"
 
 let env_reader_string (bs : n list) : string =
-  match tread_env bs, tdec_full bs with
-  | Err _, _ -> "ERR"
-  | Panic _, _ -> "PANIC"
-  | Ok None, _ -> "0"
-  | Ok (Some (ct, pairs)), _ ->
+  match tread_env bs with
+  | Err _ -> "ERR"
+  | Panic _ -> "PANIC"
+  | Ok None -> "0"
+  | Ok (Some (ct, pairs)) ->
     (* precisions are those of the top-level headers *)
     let h = match run parse_headers bs with Ok h -> h | _ -> failwith "headers" in
     env_string dequant h.h_pxy (Z.of_N h.h_pz) (Z.of_N h.h_pm) ct pairs
